@@ -11,6 +11,10 @@ KINDMAP = {"runtime_error": "K_runtime_error"}
 
 HEADER = r'''
 #define VERIF_ALLOWED (KBIT(K_runtime_error) | KBIT(K_out_of_range))
+/* ghost: inside a function declared noexcept an exception is std::terminate - a crash, not an error (cleared by every harness,
+ * set only by a function whose signature says noexcept) */
+_Bool verif_noexcept;
+#define VERIF_THROW_OK(kind) (!verif_noexcept && ((((unsigned)(VERIF_ALLOWED)) >> (kind)) & 1u))
 #include "verif_stl.h"
 int verif_thrown;
 vtail verif_last_string; /* ghost: the std::string handed to JSON(val) by parse_string */
@@ -129,14 +133,19 @@ def build(prop, tier="quick"):
         sl = hdr.slice_function(anchors[fn], after=ps.ob)
         cname = "JSONParser_" + fn
         c = C(cname)
-        kb.emit_function(protos[fn], sl, rules(nested=fn in ("parse_array", "parse_object")), c.fn, c.loops, cname, pre=pre_for(cname), ghost=c.ghost)
+        pf = pre_for(cname)
+        if re.search(r"\)\s*noexcept\s*$", sl.sig_tail) and fn != "isspace":
+            kb.emit_function(protos[fn], sl, rules(nested=fn in ("parse_array", "parse_object")), list(c.fn) + [["F", "__CPROVER_assigns(verif_noexcept)"]], c.loops, cname,
+                             pre=lambda b, pf=pf: "verif_noexcept = 1; /* declared so */" + pf(b), ghost=c.ghost)
+        else:
+            kb.emit_function(protos[fn], sl, rules(nested=fn in ("parse_array", "parse_object")), c.fn, c.loops, cname, pre=pf, ghost=c.ghost)
 
     leaf = ["JSONParser_consume_ws"]
     values = ["JSONParser_parse_string", "JSONParser_parse_number", "JSONParser_parse_bool", "JSONParser_parse_null"]
 
     def H(fn, decl, call, replace=(), loops=True, expect_loops=False):
         cname = "JSONParser_" + fn
-        kb.add("void h_%s(void) { %s %s; VERIF_CANARY(\"%s returns normally\"); }" % (cname, decl, call, cname))
+        kb.add("void h_%s(void) { verif_noexcept = 0; %s %s; VERIF_CANARY(\"%s returns normally\"); }" % (cname, decl, call, cname))
         t = Target(cname, "h_" + cname, replace=list(replace), loops=loops, objbits=8)  # see OBJBITS note below
         if expect_loops:
             t.expect_loops = True
